@@ -63,7 +63,7 @@ func runC10(e *Env) {
 				if !ok {
 					continue
 				}
-				if m, ok := ia.X.(*ssa.Call); ok && m.Call.StaticCallee() != nil && strings.HasPrefix(m.Call.StaticCallee().String(), "(*regexp.Regexp).FindSubmatch") && !seen[callee] {
+				if m, ok := ia.X.(*ssa.Call); ok && m.Call.StaticCallee() != nil && isSubmatchCallee(m.Call.StaticCallee().String()) && !seen[callee] {
 					seen[callee] = true
 					idx := ai
 					e.Flow(func(c *flow.Ctx) { c.RuleCaseClosure(callee, idx, alphabet) })
@@ -421,7 +421,7 @@ func captureIndexOf(v ssa.Value) (int64, bool) {
 		return 0, false
 	}
 	call, ok := ia.X.(*ssa.Call)
-	if !ok || call.Call.StaticCallee() == nil || !strings.HasPrefix(call.Call.StaticCallee().String(), "(*regexp.Regexp).FindSubmatch") {
+	if !ok || call.Call.StaticCallee() == nil || !isSubmatchCallee(call.Call.StaticCallee().String()) {
 		return 0, false
 	}
 	return flow.ConstInt(ia.Index)
@@ -670,4 +670,9 @@ func romanValue(s string) int64 {
 		}
 	}
 	return tot
+}
+
+// isSubmatchCallee: the sibling sub-match functions with the same result contract (nil or NumSubexp+1 entries).
+func isSubmatchCallee(name string) bool {
+	return name == "(*regexp.Regexp).FindSubmatch" || name == "(*regexp.Regexp).FindStringSubmatch"
 }
